@@ -1052,6 +1052,8 @@ def contains(I_, container, item, st, ctx, k, node):
     raise Unsupported("symbolic key in __dict__")
   if isinstance(container, tuple):
     return any_eq(I_, item, list(container), st, ctx, k, node)
+  if isinstance(container, IterVal):
+    return any_eq(I_, item, list(container.items), st, ctx, k, node)
   if isinstance(container, (list, set, frozenset, dict)) or isinstance(container, (type({}.keys()), type({}.values()))):
     if isinstance(item, Union):
       return I_.split(item, st, lambda st2, it: contains(I_, container, it, st2, ctx, k, node))
